@@ -342,19 +342,19 @@ func c14MakeStyle(rnd *rand.Rand, lay int) c14Style {
 }
 
 type c14Layout struct {
-	rnd     *rand.Rand
-	st      c14Style
-	sb      strings.Builder
-	line    int32
-	col     int32
-	depth   int
-	prev    string
-	atStart bool     // at the start of a logical line
-	indents []string // indentation strings of the open blocks
-	suites  []bool   // for each open suite: written inline?
-	parens  []bool   // decisions for the open optional parentheses
-	pending int      // markers waiting for the next token
-	marks   []c14Pos
+	rnd      *rand.Rand
+	st       c14Style
+	sb       strings.Builder
+	line     int32
+	col      int32
+	depth    int
+	prev     string
+	atStart  bool     // at the start of a logical line
+	indents  []string // indentation strings of the open blocks
+	suites   []bool   // for each open suite: written inline?
+	parens   []bool   // decisions for the open optional parentheses
+	pending  int      // markers waiting for the next token
+	marks    []c14Pos
 	fileMode bool
 }
 
